@@ -310,6 +310,8 @@ def load_known():
 def vkey(v):
     """A stable identity for a violation: property + (shrunk) pattern + flags + haystack + start."""
     case = v.get("shrunk") or v.get("case") or {}
+    if not case.get("pattern_cps"):
+        return dict(property=v.get("property"), case=case, what=v.get("what") if not case else None)
     return dict(
         property=v.get("property"),
         pattern_cps=case.get("pattern_cps"),
@@ -544,6 +546,77 @@ CHECKS = {
         ["the comparison program is the same bytecode with StartPredicate::Arbitrary (hook with_arbitrary_start_pred)"],
         required=["predicate_matched." + k for k in PRED_KINDS] + ["predicate_unmatched." + k for k in PRED_KINDS],
         extra=c04_extra,
+    ),
+    "C05": simple_check(
+        "C05",
+        "c05",
+        "exhaustive scope: every nesting (depth in maxima.nesting_depth) of 14 quantifier forms around 14 bodies that can match the empty string (with and without capture groups, forward, inside a lookbehind, followed by a literal or a backreference) x every haystack over {a,b} up to length 4 plus two 24-character haystacks; plus the fixed corpus and seeded structured random patterns on their relevant-alphabet haystacks."
+        " Each case runs both executors on both the optimized and the unoptimized program with the hook step counter; non-trivial iff the pattern has a quantifier and the reference model's empty-iteration rule fired or it took more than 10 steps.",
+        ["bounded progress, not termination: steps(engine) <= 10^4 + 10^3 x steps(esref), both logical step counts (hook ticks / reference model steps)", "cases whose reference cost exceeds 20000 steps are inconclusive and excluded", "backtrack store bound: high-water <= (3 + groups) x (steps + 1)"],
+        required=["cases_where_the_empty_iteration_rule_fired", "hook.site.pike_step", "hook.pop.SetLoopData", "hook.pop.EnterNonGreedyLoop", "hook.bt.bwd.EnterLoop"],
+        extra=lambda m: dict(nested_quantifier_patterns=m.c("nested_quantifier_patterns"), cases_where_the_empty_iteration_rule_fired=m.c("cases_where_the_empty_iteration_rule_fired"), exhaustive=True),
+        crash_property="C05",
+    ),
+    "C07": simple_check(
+        "C07",
+        "c07",
+        "adversarial families (maxima.ladder_max_n.* = largest size driven per family, counters ladder.<family>.<outcome>) on a size ladder 1..10^5 (quick) / 10^6 (thorough); every prefix of 20 corpus patterns x 7 flag sets; seeded random mutations/splices of the corpus, syntax-character soup and raw code point sequences in 0..=0x10FFFF including surrogates (from_unicode), with and without no_opt."
+        " A case is one compile call on a thread with an 8 MiB stack; distinct by (pattern, flags); non-trivial iff the pattern is non-empty.",
+        ["compile-side logical step bound: 2x10^6 + 5000 x length (hook ticks in parser, optimizer and emitter); exceeding it is reported as non-termination", "process death (stack overflow, abort) is attributed to the last announced program by the supervisor", "8 MiB stack is the reference environment"],
+        required=["outcome.ok", "outcome.err", "source.raw_code_points", "hook.site.parse_term", "hook.site.opt_node", "hook.site.emit_node"],
+        extra=lambda m: dict(ladder=group_counters(m.counters, "ladder."), outcomes=group_counters(m.counters, "outcome."), sources=group_counters(m.counters, "source.")),
+        crash_property="C07",
+    ),
+    "C08": simple_check(
+        "C08",
+        "c08",
+        "exhaustive: every string up to length maxima.exhaustive_length over the syntax alphabet {a 1 \\ ( ) [ ] { } ? * | ^ - , k} (thorough: length 5, plus 6 seed-rotated alphabets of 10 core symbols + 4 of 25 extras) x {legacy, u, v}; escape tables: 44 templates x every printable ASCII character x 3 modes; ~600 targeted patterns (named groups and references, decimal/octal escapes, braces, class ranges, unicode/hex escapes, group names, modifiers, property names, class-set operators and punctuators, unbalanced fragments) x 5 flag sets; seeded structured random patterns and 3 single-edit neighbours each."
+        " A case is (pattern, flags); distinct by hash; non-trivial iff the pattern contains a syntax character. Counters cell.<mode>.<agreement cell> give the four agreement cells per mode.",
+        ["the oracle is esref's parser: my reading of ECMA-262 22.2.1 + Annex B.1.2 + early errors (ES2025 with modifiers and duplicate named groups)", "patterns near regress's documented resource limits (nesting 256, 65535 groups/loops) are permitted additional rejections and are skipped", "a pattern is a sequence of code points in every mode (escaped surrogate pairs denote one code point without u as well)"],
+        required=["cell.legacy.both_accept", "cell.legacy.both_reject", "cell.u.both_accept", "cell.u.both_reject", "cell.v.both_accept", "cell.v.both_reject", "source.exhaustive", "source.escape_tables", "source.targeted", "source.structured"],
+        extra=lambda m: dict(agreement_cells=group_counters(m.counters, "cell."), sources=group_counters(m.counters, "source."), exhaustive=True),
+        crash_property="C07",
+    ),
+    "C09": simple_check(
+        "C09",
+        "c09",
+        RULE_PROGRAMS + "each case is the whole history of next() calls of find_from / the PikeVM iterator / find_from_ascii (plus 3 calls after the first None) from that start, including starts len+1 and usize::MAX; compared with unfold(fresh first match at cursor, advance rule) of the same engine and with the reference model's lastIndex iteration; non-trivial iff at least one match.",
+        ["the per-cursor first match is taken from a fresh iterator of the same engine (isolates cursor logic from C01); the reference-model comparison covers visibility of text before start"],
+        required=["empty_matches_in_histories", "empty_match_before_multibyte_char", "histories_with_adjacent_matches", "histories_checked_against_reference", "histories_with_nonzero_start_and_match", "histories.find_from_ascii", "histories.pikevm", "predicate.StartAnchored"],
+        extra=lambda m: dict(histories=group_counters(m.counters, "histories"), predicate_kinds=group_counters(m.counters, "predicate."), empty_matches=m.c("empty_matches_in_histories"), empty_match_before_multibyte_char=m.c("empty_match_before_multibyte_char")),
+    ),
+    "C12": simple_check(
+        "C12",
+        "c12",
+        "enumerated class expressions /^E$/: legacy and u brackets = every sequence of up to 2 (quick) / 3 (thorough) items from 21/22 items (chars, ranges, class escapes, property escapes, fold-special chars, punctuators) x negated or not x {none,i} / {u,iu}; v classes = 23 leaf operands and ~330 nested operands (complement, union, &&, -- of 10 small operands) combined as single operand, union, && and -- of two (quick: a seed-selected sixth of the longer ones) and of three (thorough) x negated or not x {v,iv}; plus spelling-equivalence patterns."
+        " Each expression is asked about 48 characters and short strings (mentioned chars, case partners, neighbours, one char per UTF-8 length, strings over the \\q alphabet). non-trivial iff the reference model needed more than 8 steps or matched.",
+        ["the oracle is esref's ClassSet evaluator (sets of strings, MaybeSimpleCaseFolding, CharacterComplement per mode), independent of regress's codepointset.rs", "\\p{Lu}/\\p{Ll} membership from regex-syntax 16.0 tables (universe characters are all older than Unicode 16)"],
+        extra=lambda m: dict(class_expressions=m.c("class_expressions"), esref_events=group_counters(m.counters, "esref."), pattern_features=group_counters(m.counters, "feat.")),
+        required=["esref.class_string_matched", "esref.class_empty_string_matched"],
+    ),
+    "C16": simple_check(
+        "C16",
+        "c16",
+        "fixed patterns rich in named / unnamed / duplicate-named groups (also inside lookbehind) + seeded structured random patterns biased to named groups; every match of find_from on every relevant-alphabet haystack and start is inspected: captures.len, group(i) for 0..=n+2 and usize::MAX, groups() items and size_hint/len at every step, named_group for every name / \"\" / an absent name, named_groups() items, order and size_hint/len. Ground truth for group count, names and their source order comes from the reference parser. non-trivial iff the case had a match and the pattern has groups.",
+        ["the participating duplicate is the first same-named group whose capture is Some (at most one can be)"],
+        required=["matches_with_named_groups", "matches_where_a_later_duplicate_participated", "matches_of_programs_with_groups_in_lookbehind"],
+        extra=lambda m: dict(matches_inspected=m.c("matches_inspected"), matches_with_named_groups=m.c("matches_with_named_groups"), later_duplicate_participated=m.c("matches_where_a_later_duplicate_participated"), groups_in_lookbehind=m.c("matches_of_programs_with_groups_in_lookbehind")),
+    ),
+    "C17": simple_check(
+        "C17",
+        "c17",
+        "15 regexes (empty, adjacent, multi-byte, non-participating, duplicate-named and lookbehind groups) x 14 haystacks x templates: every string up to length 3 (quick) / 4 (thorough) over {$,0,1,2,9,{,},a,n,e-acute,x} plus seeded random concatenations of 27 template pieces; replace, replace_all, replace_with, replace_all_with (identity and constant closures). non-trivial iff there was a match and the template contains '$'.",
+        ["model: splice over the engine's own find_iter sequence with an expand() written from the property statement", "templates with a digit run above 65535 are outside what the statement defines and are excluded from the equality (counted)"],
+        required=["cases_without_match", "templates_with_group_number_above_65535_excluded"],
+        extra=lambda m: dict(templates=m.c("templates"), excluded_big_group_numbers=m.c("templates_with_group_number_above_65535_excluded")),
+    ),
+    "C18": simple_check(
+        "C18",
+        "c18",
+        "every string s up to length 2 (quick) / 3 (thorough) over 41 characters (all 14 syntax characters, v-mode punctuators, letters with fold partners, multi-byte, line terminators) plus seeded random longer strings; escape(s) compiled under all 24 flag sets and searched in 5 haystacks with s (and case variants) planted. non-trivial iff s is non-empty and occurs.",
+        ["without i the oracle is naive substring search with the find_iter advance rule; with i character-wise comparison under uniref's canonical equivalence (legacy: std to_uppercase rule; u/v: simple case folding orbits)"],
+        required=["case_insensitive_cases"],
+        extra=lambda m: dict(strings=m.c("strings"), exhaustive=True),
     ),
     "C13": simple_check(
         "C13",
